@@ -15,6 +15,7 @@ func init() {
 			Harness{Fn: "ZZC01Lists", Quick: p("N", 3), Thorough: p("N", 4), Expect: []string{"lists-ok", "witness:end"}},
 		)},
 		Assumptions: []string{
+			"ZZC01Effects: argument lists, array literals, map literals and user-function arguments of 2..NE elements drawn from 8 element kinds that read or change err, errmsg and a global (conversions, a bumping function); expected values from a left-to-right state machine in the harness",
 			"expression trees up to depth D over + - * / % unary-minus, < <= > >= == != on nums and strings, and/or/!, string +, index, calls of printing functions; numeric and bool leaves are unconstrained symbolic values, string leaves from {\"\", \"añ\", \"b\"}",
 			"math.Mod is an uninterpreted function on both sides; FormatFloat results are opaque atoms compared by their argument terms",
 			"the reference evaluation is written from docs/spec.md (precedence table, left-to-right associativity and evaluation, short-circuit and/or)",
@@ -36,6 +37,7 @@ func init() {
 			Harness{Fn: "ZZC10Funcs", Quick: p("D", 2, "L0", 1, "L1", 1, "L2", 1, "R", 1), Thorough: p("D", 2, "L0", 2, "L1", 1, "L2", 1, "R", 2), ThoroughBudget: 25 * time.Minute, Expect: []string{"funcs-f", "funcs-g", "witness:end"}},
 		)},
 		Assumptions: []string{
+			"ZZC10Funcs: programs with a recursive function f (parameter named x or p, recursion depth R), a procedure g (parameter named y or q), calls from inside loops and before the definitions, shadowing declarations, return and break at any depth; one of the four blocks (main, two blocks of f, the block of g) is generated per path, the others are fixed templates; ZZC10Range bodies optionally assign to the loop variable; ZZC15Events (shadowed globals) is also run here",
 			"program family: nestings up to depth D of if / if-else / while / for over num, array, string, map / procedure call (defined after use), with shadowing declarations of x, assignments, prints, break and return in every legal position; blocks of at most L0/L1/L2 statements at depth 0/1/2; the global x and both condition variables are symbolic",
 			"numeric ranges: start, stop, step unconstrained finite float64; ranges of more than U iterations are cut by an assumption on the harness side (stated bound), not by truncation",
 			"the reference interpreter in the harness is written from docs/spec.md and trusted",
@@ -54,6 +56,7 @@ func init() {
 			Harness{Fn: "ZZC09Fresh", Expect: []string{"fresh-ok", "witness:end"}},
 		)},
 		Assumptions: []string{
+			"ZZC09ErrCopies: 13 ways of reading err/errmsg x 14 ways of storing a basic value x both directions of the later flip; ZZC09Fresh: 14 fresh-container operations (slices, concatenation with empty and non-empty operands on either side, repetition) and 3 sharing operations, flat and nested, updated from both sides",
 			"scenario table: 46 alias scenarios = way the alias is made (declaration, assignment, argument, variadic argument, return, array element, map value, any wrapping, loop variable, slice, concatenation, repetition, err/errmsg read) x update (variable, element, field, del, inside callee) x observation; old and new values are unconstrained symbolic numbers",
 			"expected outputs follow from the copy-vs-share rule of docs/spec.md written next to each scenario",
 		},
@@ -73,6 +76,7 @@ func init() {
 			Harness{Fn: "ZZC04Ops", Expect: []string{"ops-accepted", "witness:end"}},
 		)},
 		Assumptions: []string{
+			"ZZC04InferGen: literals over every K-tuple of a 24-element pool (constants, empty literals of three shapes, variables of six types, literals containing variables), in every order, as array and as map; the oracle is set based (least general type to which every element is assignable per the Assignability section), literals-with-variables that would have to be generalised are left to the order-independence and acceptance assertions; ZZC04Range: range clauses of 1..RN+1 operands from a 16-expression pool",
 			"types: all types over num/string/bool/any with [] and {} up to nesting D (12 types at D=1, 28 at D=2); value kinds: variable, expression of variables, constant literal, empty literal (5 shapes); contexts: typed declaration + assignment, parameter, variadic parameter, return value; operators: all 13 binary and 2 unary operators, index, slice, dot, type assertion, if/while condition, range operand on variables of every type up to nesting 1",
 			"the oracle is the assignability section, operator table and inference rules of docs/spec.md transcribed into ~60 lines over type descriptors; ZZC04Infer explores every Go map iteration order inside the parser",
 		},
@@ -92,6 +96,7 @@ func init() {
 			Harness{Fn: "ZZC05CLI", Expect: []string{"cli-rejected", "cli-valid", "witness:end"}},
 		)},
 		Assumptions: []string{
+			"ZZC05Returns: function, procedure and handler bodies built from return / statement / if-else-if-else chains (1..RK branches, optional else) / while / break up to depth RD; accepted exactly when no statement follows an always-terminating one and a function with a result type cannot reach its end; ZZC05CLI counterexamples are confirmed by running the real evy binary",
 			"one rule-breaking edit (25 rules) at every position where it applies (top level early/late, function, procedure, handler, if block, loop body) of a valid skeleton with effects (print, move, cls, read, sleep, calls) in every position",
 			"CLI: model file system, os.Exit/stdout/stderr/sleep/exec are recording stubs",
 		},
@@ -121,6 +126,7 @@ func init() {
 			Harness{Fn: "ZZC06Multi", Quick: p("PROP", 6, "ML", 2), Thorough: p("PROP", 6, "ML", 3), Expect: []string{"multi-ok", "witness:end"}},
 		)},
 		Assumptions: []string{
+			"ZZC07Str: string literals of up to S pieces from 13 (plain, every escape sequence, non-ASCII, format and markup look-alikes) in four syntactic positions; ZZC06Multi: multi-line array/map literals of up to ML lines (element, element with comment, own-line comment, blank line; also comment-only literals) in six positions, at top level and inside a block",
 			"inputs: a corpus of 26 hand-written layouts of every syntax form (comments in every position, blank-line runs, multi-line array/map literals, tabs, \\r, missing final newline) and every generated program of the C10 family in a plain and a messy layout (double spaces, tabs, blank-line runs of 1..3, trailing and own-line comments)",
 			"number literals are compared by value and comments by trimmed text (the formatter prints 1.50 as 1.5 and trims comments); identifiers, strings and comment texts come from fixed alphabets",
 		},
@@ -146,12 +152,13 @@ func init() {
 			Harness{Fn: "ZZC07Check", Expect: []string{"check-ok", "witness:end"}},
 			Harness{Fn: "ZZC07CheckFiles", Quick: p("FILES", 2), Thorough: p("FILES", 3), Expect: []string{"files-ok", "files-unformatted", "witness:end"}},
 		)},
-		Assumptions: []string{"same inputs as C06; `evy fmt --check` through main.format and fmtCmd.Run on the model file system"},
-		Outside:     []string{"layouts outside the corpus/generator"},
-		LevelText:   "exhaustive exploration of the bounded layout space: fmt(fmt(p)) = fmt(p), whitespace variants of one program give one text, no trailing blanks, no two consecutive blank lines, exactly one final newline, indentation in multiples of four spaces; main.format(checkOnly) returns nil exactly for formatted input",
-		LevelNote:   "trusts the shape predicates in the harness; structural data, the solver is the enumerator",
-		DesignRef:   "DESIGN.md §6 C07",
-		Technique:   technique,
+		Assumptions: []string{
+			"ZZC07Str and ZZC06Multi as in C06, with the canonical-shape assertions", "same inputs as C06; `evy fmt --check` through main.format and fmtCmd.Run on the model file system"},
+		Outside:   []string{"layouts outside the corpus/generator"},
+		LevelText: "exhaustive exploration of the bounded layout space: fmt(fmt(p)) = fmt(p), whitespace variants of one program give one text, no trailing blanks, no two consecutive blank lines, exactly one final newline, indentation in multiples of four spaces; main.format(checkOnly) returns nil exactly for formatted input",
+		LevelNote: "trusts the shape predicates in the harness; structural data, the solver is the enumerator",
+		DesignRef: "DESIGN.md §6 C07",
+		Technique: technique,
 	})
 	register(Check{
 		ID: "C08", Title: "Parsing, formatting and running are deterministic", Level: "model_checking",
@@ -160,6 +167,7 @@ func init() {
 			Harness{Fn: "ZZC08Corpus", Expect: []string{"corpus-ok", "witness:end"}, MaxInstr: 40_000_000},
 		)},
 		Assumptions: []string{
+			"ZZC08Corpus: the ~150 program texts of the C09/C02/C04 harnesses under every map order; three programs for every map-building operation (repetition / deep copy, inside any, nested)",
 			"the adversarial schedule is Go's map iteration order: every range over a Go map of up to four entries executed in evy code is a choice point and all orders are explored (larger maps — the built-in function table — are ranged in canonical order: their loops only copy into other maps; sites listed under reach_markers)",
 			"the whole pipeline (parse, format, evaluate) runs under every order and is compared with a run under one fixed order; programs are biased to two or more entries wherever a map is ranged (unused variables per scope, map literals with side effects and mixed value types, font properties, handlers, map printing/equality/test)",
 			"the parser is given one built-in global instead of three to bound the number of orders",
@@ -181,6 +189,7 @@ func init() {
 			Harness{Fn: "ZZC02Index", Expect: []string{"index-ok", "index-panic", "witness:end"}},
 		)},
 		Assumptions: []string{
+			"ZZC02Audit additionally stores untyped empty literals of nesting depth 1..4 in an any, an inferred variable and an array element and requires the complete concrete type (structure over any)",
 			"unit layer: every entry of newBuiltins is called once with arguments of its declared parameter types: nums and bools unconstrained symbolic values, strings from {\"\", \"a\", \"añ✓\", \"%v %d %s\", \"12\"}, any-wrapped num/string/bool/[]num/{}num, arrays and maps of 0..2 elements, 0..3 variadic arguments; the platform is a recording stub, the random source a contract stub",
 			"every Go-level panic on an explored path (nil dereference, failed type assertion, index/makeslice out of range, explicit panic) is reported by the engine",
 			"memory exhaustion by legitimately huge data is outside; a Go makeslice panic is inside",
